@@ -163,7 +163,7 @@ func H_C14(name string, c1, c2, c3, dn int) {
 	var outc []float64
 	if len(acts) == n {
 		ann = annotationModel(acts)
-		outc = Collect1(strategy.Outcome(Src(fClose(snaps), 0), Src(acts, 0)))
+		outc = portfolio(fClose(snaps), acts) // the independent all-in / all-out model of C08
 	}
 	var exp map[string][]float64
 	if st.Cols != nil {
